@@ -36,6 +36,8 @@ OPS = ("functor", "arg", "univ", "copy", "tvars", "ground", "subsumes")
 # ------------------------------------------------------------------ abstract terms
 # ('v', name) ('i', n) ('ri', n, exprtext) ('q', num, den) ('f', float) ('a', name)
 # ('s', functor, [args]) ('str', "chars", tail|None) ('lst', [elems], tail|None)
+# ('sh', VarName, term): a sub-term reached through a variable bound in the prelude (shared when it
+#                        occurs more than once)
 
 
 def fbits(x):
@@ -63,6 +65,7 @@ class Render:
 
     def __init__(self):
         self.prelude = []
+        self.shared = set()
         self.n = 0
 
     def fresh(self, p):
@@ -102,6 +105,12 @@ class Render:
             if t[2] is None:
                 return "[%s]" % inner
             return "[%s|%s]" % (inner, self.pl(t[2]))
+        if k == 'sh':
+            if t[1] not in self.shared:
+                self.shared.add(t[1])
+                txt = self.pl(t[2])
+                self.prelude.append("%s = %s" % (t[1], txt))
+            return t[1]
         raise ValueError(t)
 
 
@@ -126,6 +135,8 @@ def expand(t):
         for e in reversed(t[1]):
             tl = cons(expand(e), tl)
         return tl
+    if k == 'sh':
+        return expand(t[2])
     raise ValueError(t)
 
 
@@ -336,7 +347,7 @@ def rename_first(t):
 
 VARS = ["V0", "V1", "V2", "V3", "V4", "V5"]
 OUT = ["W0", "W1", "W2"]     # variables that occur nowhere else (fresh output arguments)
-ATOMS = ["a", "b", "c", "[]", "x", "{}", "f", "hello world", "A", "don't", ".", "foo"]
+ATOMS = ["a", "b", "c", "[]", "x", "{}", "f", "hello world", "A", "don't", ".", "foo", "\u00e9", "\u2192x"]
 FUNCTORS = [("f", 1), ("f", 2), ("f", 3), ("g", 1), ("g", 2), ("h", 2), ("-", 2), ("p", 4), (".", 2), ("[]", 1),
             ("{}", 1), (".", 3)]
 SMALL = [0, 1, -1, 2, 3, 7, 255]
@@ -375,7 +386,7 @@ def gen_var(rng, nv):
 def gen_listy(rng, depth, nv):
     r = rng.random()
     n = rng.choice([0, 1, 1, 2, 2, 3, 4])
-    chars = "".join(rng.choice("abcab c") for _ in range(n))
+    chars = "".join(rng.choice("abcab c\u00e9\u2192") for _ in range(n))
     tailr = rng.random()
     tail = None
     if tailr < 0.3 and nv > 0:
@@ -396,7 +407,26 @@ def gen_listy(rng, depth, nv):
     return ('lst', elems, tail) if n > 0 else (tail or nil())
 
 
-def gen_term(rng, depth, nv, numw=0.2, listw=0.2):
+SHARE_NAMES = ["S1", "S2", "S3"]
+
+
+def gen_term(rng, depth, nv, numw=0.2, listw=0.2, share=None):
+    """share: dict name -> abstract term of sub-terms reached through prelude variables."""
+    if share is not None and depth > 0 and rng.random() < 0.18:
+        if share and rng.random() < 0.6:
+            k = rng.choice(sorted(share))
+        else:
+            k = SHARE_NAMES[len(share) % 3]
+            if k not in share:
+                share[k] = None
+                share[k] = gen_term(rng, depth - 1, nv, numw, listw) if rng.random() < 0.5 else gen_listy(rng, depth - 1, nv)
+        if share[k] is not None:
+            return ('sh', k, share[k])
+    t = gen_term0(rng, depth, nv, numw, listw, share)
+    return t
+
+
+def gen_term0(rng, depth, nv, numw, listw, share):
     r = rng.random()
     if depth <= 0 or r < 0.25:
         r2 = rng.random()
@@ -408,7 +438,7 @@ def gen_term(rng, depth, nv, numw=0.2, listw=0.2):
     if r < 0.25 + listw:
         return gen_listy(rng, depth, nv)
     f, n = rng.choice(FUNCTORS)
-    return ('s', f, [gen_term(rng, depth - 1, nv, numw, listw) for _ in range(n)])
+    return ('s', f, [gen_term(rng, depth - 1, nv, numw, listw, share) for _ in range(n)])
 
 
 def gen_compound(rng, depth, nv):
@@ -431,6 +461,8 @@ def instance_of(rng, t, nv):
 
     def go(x):
         k = x[0]
+        if k == 'sh':
+            return go(x[2])
         if k == 'v':
             return sub.get(x[1], x)
         if k == 's':
@@ -446,6 +478,8 @@ def instance_of(rng, t, nv):
 def rename_apart(t, suffix="b"):
     def go(x):
         k = x[0]
+        if k == 'sh':
+            return go(x[2])
         if k == 'v':
             return ('v', x[1] + suffix)
         if k == 's':
@@ -590,7 +624,7 @@ def gen_bad_list(rng, nv):
 
 def gen_copy(rng):
     nv = rng.choice([1, 2, 3, 4])
-    t = gen_term(rng, rng.choice([1, 2, 3, 4]), nv)
+    t = gen_term(rng, rng.choice([1, 2, 3, 4]), nv, share={} if rng.random() < 0.6 else None)
     r = rng.random()
     if r < 0.5:
         c = ('v', 'W0')
@@ -607,7 +641,7 @@ def gen_copy(rng):
 
 def gen_tvars(rng):
     nv = rng.choice([0, 1, 2, 3, 4, 5])
-    t = gen_term(rng, rng.choice([0, 1, 2, 3, 4]), nv)
+    t = gen_term(rng, rng.choice([0, 1, 2, 3, 4]), nv, share={} if rng.random() < 0.4 else None)
     tv = tree_vars(expand(t))
     r = rng.random()
     if r < 0.45:
@@ -695,6 +729,11 @@ def directed():
         ("arg", [('i', 1), ('str', "ab", None), W]), ("arg", [('i', 2), ('str', "ab", None), W]),
         ("arg", [('i', 2), ('str', "a", None), W]), ("arg", [('i', 2), ('str', "ab", X), W]),
         ("arg", [('i', 2), ('str', "a", X), W]), ("arg", [('i', 3), ('str', "abc", None), W]),
+        ("arg", [('i', 2), ('str', "\u00e9b", None), W]), ("arg", [('i', 2), ('str', "\u2192\u00e9c", X), W]),
+        ("arg", [('i', 1), ('str', "\u2192b", None), W]), ("copy", [s('f', ('str', "\u00e9\u2192", X), X), W]),
+        ("copy", [s('f', ('sh', 'S1', ('lst', [a, X], Y)), ('sh', 'S1', ('lst', [a, X], Y)), Y), W]),
+        ("copy", [s('f', ('sh', 'S1', ('str', "ab", X)), ('sh', 'S1', ('str', "ab", X)), X), W]),
+        ("copy", [s('f', ('sh', 'S1', s('g', X, Y)), ('sh', 'S1', s('g', X, Y)), ('lst', [('sh', 'S1', s('g', X, Y))], X)), W]),
         ("arg", [('i', 1), s('f', s('g', X)), X]), ("arg", [('i', 1), s('f', X), X]), ("arg", [('i', 1), s('f', X, Y), Y]),
         ("arg", [('i', 1), s('f', s('g', X, Y)), s('g', Y, a)]), ("arg", [('ri', 1, rt_int_expr(1)), s('f', a), W]),
         ("univ", [s('f', a, X), W]), ("univ", [W, ('lst', [('a', 'f'), a, X], None)]), ("univ", [a, W]), ("univ", [('i', 1), W]),
@@ -736,6 +775,8 @@ def sanitize(t):
     """no cons cell with a one-char head and a non-[] atom tail (printing it back panics in the
     answer printer, notes/findings-misc.md): such a tail becomes the integer 1."""
     k = t[0]
+    if k == 'sh':
+        return ('sh', t[1], sanitize(t[2]))
     if k == 's':
         a = [sanitize(x) for x in t[2]]
         if t[1] == '.' and len(a) == 2 and is_char(expand(a[0])) and a[1][0] == 'a' and a[1][1] != '[]':
@@ -787,8 +828,8 @@ def classify_arg_bign(c):
     if c["op"] != "arg":
         return False
     n, t = c["args"][0], c["args"][1]
-    return re.fullmatch(r"\d+", n) is not None and int(n) >= 2 ** 64 and not t.startswith("'.'(") and \
-        not (t.startswith("'") and t.endswith(")")) and not t.startswith('"') and not t.startswith("[")
+    compound = t != "[]" and (t.startswith('"') or t.startswith("[") or (t.startswith("'") and t.endswith(")")))
+    return re.fullmatch(r"\d+", n) is not None and int(n) >= 2 ** 64 and not compound
 
 
 def judge(c, impl, model):
